@@ -424,7 +424,7 @@ func (c *FnCtx) checkFrameAtReturn(r retInfo, ri int) {
 		if len(c.Spec.belowParams()) > 0 && isAnyTreeHeap(n) {
 			continue // frame inside the any-trees below the arguments is assumed (sep), not checked
 		}
-		if mi := c.E.modInfo(c.F); !mi.Exist["*"] && !mi.Exist[n] {
+		if mi := c.E.rawModInfo(c.F); !mi.Exist["*"] && !mi.Exist[n] {
 			continue // by the static MOD analysis only objects allocated during the call are written in this heap
 		}
 		var cond string
